@@ -12,7 +12,9 @@ RULE = (
     'T x {always, never}, every driver script D^{<=k}.F, flat and nested '
     'topologies; A-family: every execution with <= bound non-default poll '
     'answers (timestep menu, condition menu) of 1-2 adaptive probes, plus '
-    'gated worlds (state-dependent _condition toggled by another process). '
+    'gated worlds (state-dependent _condition toggled by another process); '
+    'a killer process deleting a victim whose update is idle / due / in '
+    'flight (operator listed first or last). '
     'A case is distinct by (world spec, choice sequence); non-trivial when '
     'at least one update was returned or a condition was false.')
 ASSUMPTIONS = [
@@ -133,7 +135,81 @@ def run_par(job, acc):
         acc.violate(v)
 
 
+def kill_jobs(ctx):
+    """A killer process deletes the compartment of a victim probe while the
+    victim's update is idle / due in the same batch / in flight."""
+    jobs = []
+    for vts in (0.5, 1, 2, 3):
+        for kill_at in (0, 1, 2):
+            for killer_first in (False, True):
+                for sc in ([('update', 4)],
+                           [('run_for', 1.5, False), ('update', 3)]):
+                    jobs.append(('K', vts, kill_at, killer_first, sc))
+    return jobs
+
+
+def run_kill(job, acc):
+    _, vts, kill_at, killer_first, script = job
+    victim = sched.probe_spec('v', vts, 'always')
+    other = sched.probe_spec('p1', 1, 'always')
+    killer = {'cls': 'P', 'pid': 'killer', 'ts': 1, 'log_states': False,
+              'schema': {'root': {}},
+              'update': {'$n': {kill_at: {'root': {'_delete': ['c']}}},
+                         '$else': {}}}
+    procs = {'c': {'v': victim}, 'p1': other}
+    if killer_first:
+        procs = dict([('killer', killer)] + list(procs.items()))
+    else:
+        procs['killer'] = killer
+    spec = {'processes': procs,
+            'topology': {'c': {'v': {'priv': ('sv',),
+                                     'shared': ('..', 'shared')}},
+                         'p1': {'priv': ('s1',), 'shared': ('shared',)},
+                         'killer': {'root': ()}},
+            'script': list(script), 'family': 'K', 'job': job}
+    ex = worlds.execute(spec, guard_factory=sched.lasso_guard)
+    p = sched.Parsed(ex)
+    sched.record_states(acc, p)
+    acc.case(key=job, outcome=f'K:kill_at={kill_at}')
+    V = lambda rule, fp, msg: acc.violate(  # noqa
+        fw.violation(rule, fp, msg, spec))
+    if ex.error:
+        V('C01.crash', 'kill:' + sched.crash_fp(ex),
+          f'unexpected {ex.error[2]!r}')
+        return
+    t_del = kill_at + 1            # the deletion is applied at this time
+    # the survivor behaves exactly as in the world without the victim
+    ref = sched.ideal_timeline([(1, 'always')], script, 0)[0]
+    inv = sorted(p.invokes.get('p1', []), key=lambda r: r['n'])
+    times = [sorted(t for t, _ in p.applies.get(('p1', r['n']), []))
+             for r in inv]
+    if [tt[0] if tt else None for tt in times] != [a for a, _ in ref] or \
+            any(len(tt) != 2 for tt in times):
+        V('C01.time', 'survivor-disturbed-by-deletion',
+          f'p1 updates applied at {times}, ideal {ref}')
+    # the victim: nothing after the deletion, nothing twice, nothing late
+    for rec in p.invokes.get('v', []):
+        if rec['t'] >= t_del:
+            V('C01.deleted', 'deleted-process-invoked',
+              f'victim invoked at t={rec["t"]} after its deletion at '
+              f't={t_del}')
+        ap = sorted(t for t, _ in p.applies.get(('v', rec['n']), []))
+        # only the variable outside the deleted compartment can take it
+        if len(ap) > 2 or (ap and (ap[-1] > t_del or ap[0] < rec['t'])):
+            V('C01.deleted', 'update-of-deleted-process-applied-late',
+              f'victim update {rec["n"]} (invoked {rec["t"]}, ts '
+              f'{rec["ts"]}) applied at {ap}; deleted at {t_del}')
+        due = rec['t'] + rec['ts']
+        if due < t_del and len(ap) != 2:
+            V('C01.lost', 'update-due-before-deletion-not-applied',
+              f'victim update {rec["n"]} was due at {due} < deletion '
+              f'{t_del} but applied at {ap}')
+
+
 def run_job(job, acc):
+    if job[0] == 'K':
+        run_kill(job, acc)
+        return
     if job[0] == 'S':
         run_s(job, acc, MONITORS)
     elif job[0] == 'Par':
@@ -145,13 +221,16 @@ def run_job(job, acc):
 def run(ctx):
     fw.preload_forkserver()
     acc = ctx.map(run_job, par_jobs(ctx), chunk=4)
+    ctx.map(run_job, kill_jobs(ctx), acc=acc)
     ctx.map(run_job, afamily.a_jobs(ctx), acc=acc, chunk=1)
     return ctx.map(run_job, s_jobs(ctx), acc=acc)
 
 
 def replay(case):
     acc = fw.Acc()
-    if case.get('family') == 'Par':
+    if case.get('family') == 'K':
+        run_kill(case['job'], acc)
+    elif case.get('family') == 'Par':
         fw.preload_forkserver()
         run_par(('Par', case['procs'], case['script'][:-1],
                  case['parallel']), acc)
